@@ -409,6 +409,9 @@ def _fn_matches(fn, it, crate):
     if it.kind == 'proof':
         return parts[-1] == it.entry.key
     if it.kind == 'fn' and 'ext_trait' in it.entry.opts:
+        if it.log.get('R17f'):
+            # emitted as a free fn `PREFIX__method` (Self type is not a bnum type): the prefixed name identifies it
+            return True
         m = re.match(r'impl\((.*)\)$', kparts[-2] if len(kparts) >= 2 else '')
         if it.impl_header is None:
             return True     # R17f: emitted as a free fn with a unique name
